@@ -565,6 +565,10 @@ func (m *Module) validateFunctionWithMaxStackValues(
 				if err := enabledFeatures.RequireEnabled(experimental.CoreFeaturesTailCall); err != nil {
 					return fmt.Errorf("%s invalid as %v", OpcodeTailCallReturnCallName, err)
 				}
+				// The callee returns directly to the caller of this function, so its results must be this function's results.
+				if !bytes.Equal(funcType.Results, functionType.Results) {
+					return fmt.Errorf("type mismatch on %s operation result type: %v != %v", opcodeName, funcType.Results, functionType.Results)
+				}
 				// Same formatting as OpcodeEnd on the outer-most block
 				if err := valueTypeStack.requireStackValues(false, "", functionType.Results, false); err != nil {
 					return err
@@ -627,6 +631,10 @@ func (m *Module) validateFunctionWithMaxStackValues(
 			if op == OpcodeTailCallReturnCallIndirect {
 				if err := enabledFeatures.RequireEnabled(experimental.CoreFeaturesTailCall); err != nil {
 					return fmt.Errorf("%s invalid as %v", OpcodeTailCallReturnCallIndirectName, err)
+				}
+				// The callee returns directly to the caller of this function, so its results must be this function's results.
+				if !bytes.Equal(funcType.Results, functionType.Results) {
+					return fmt.Errorf("type mismatch on %s operation result type: %v != %v", opcodeName, funcType.Results, functionType.Results)
 				}
 				// Same formatting as OpcodeEnd on the outer-most block
 				if err := valueTypeStack.requireStackValues(false, "", functionType.Results, false); err != nil {
